@@ -495,7 +495,7 @@ def run_history(alpha: Alphabet, seed: int, length: int, kinds=None,
         'compress': 2, 'save': 1, 'restore': 1, 'clear': 0.3, 'unfold': 4,
         'unfold_all': 1, 'fold': 6, 'straighten': 4, 'add': 1, 'iadd': 1,
         'mul': 1.5, 'inverse': 1, 'remove': 1, 'batch_unfold': 1, 'extend': 1,
-        'copy_eq': 0.5, 'remove_all': 1,
+        'copy_eq': 0.5, 'remove_all': 1, 'reparam_block': 2.5,
     }
     if kinds:
         weights = {k: v for k, v in weights.items() if k in kinds}
@@ -766,6 +766,24 @@ def run_history(alpha: Alphabet, seed: int, length: int, kinds=None,
             r = rng.choice([2, 2, 3])
             attempt(f'insert_qudit {qi} {r}', f'insert_qudit({qi}, {r})',
                     lambda: c.insert_qudit(qi, r))
+        elif kind == 'reparam_block':
+            # the same CircuitGate with parameters of its own: the operation's
+            # vector, not the one frozen inside the gate, is what the block
+            # means (unfold, get_unitary, fold of a region around it)
+            blocks = [(k, o.location[0])
+                      for k, o in c.operations_with_cycles()
+                      if isinstance(o.gate, CircuitGate)
+                      and o.gate.num_params > 0]
+            if not blocks:
+                continue
+            p = rng.choice(blocks)
+            old_op = c[p]
+            op = Operation(old_op.gate, old_op.location,
+                           sim.fresh_params(old_op.gate.num_params))
+            sim.block_gid(op.gate)
+            attempt(f'replace {p[0]} {p[1]} {sim.op_text(op)}',
+                    f'replace({p}, <same block, new params>)',
+                    lambda: c.replace(p, op), must_ok=True)
         elif kind == 'pop_qudit':
             qi = rng.randint(-c.num_qudits - 1, c.num_qudits)
             attempt(f'pop_qudit {qi}', f'pop_qudit({qi})',
